@@ -187,6 +187,22 @@ void explore(Sys &sys, V::Ctx &ctx, int D)
     int done = -1;
     uint64_t tick = 0;
     const size_t nops = sys.numOps();
+    // progress counters are written to the crash-safe result stream as deltas (level ends, every 1024
+    // transitions), so that a run that ends in a crash still reports what it executed
+    std::map<std::string, uint64_t> emitted;
+    auto emitDelta = [&](const char *name, uint64_t v) {
+        uint64_t &last = emitted[name];
+        if (v > last) { V::emit(std::string("C\t") + name + "\t" + std::to_string(v - last)); last = v; }
+    };
+    auto progress = [&]() {
+        emitDelta("states_interior", shard == 0 ? seen.n : 0);
+        emitDelta("states_leaf", novelLeaf);
+        emitDelta("transitions_interior", interiorTrans);
+        emitDelta("transitions_partitioned", partTrans);
+        emitDelta("transitions_executed_incl_redundant", execs);
+        emitDelta("disabled_ops_skipped", disabled);
+        emitDelta("states_observed", observed);
+    };
 
     {
         typename Sys::World w;
@@ -208,6 +224,7 @@ void explore(Sys &sys, V::Ctx &ctx, int D)
                 const bool interior = sys.core(o) && d < D;     // builds the next level: done by every shard
                 if (!interior && !mine) continue;
                 if ((++tick & 0x3ff) == 0 && ctx.deadlineS > 0 && difftime(time(nullptr), t0) > ctx.deadlineS) { cut = true; break; }
+                if ((tick & 0x3ff) == 0) progress();
                 setDesc(histText(sys, nd, (int)o));
                 typename Sys::World w;
                 Fail f;
@@ -248,27 +265,23 @@ void explore(Sys &sys, V::Ctx &ctx, int D)
                 }
             }
         }
+        progress();
         if (!cut) {
             done = d;
+            V::emit("C\tshards_done_depth_" + std::to_string(d + 1) + "\t1");
             V::count("level_" + std::to_string(d) + "_states", shard == 0 ? level.size() : 0);
             level.swap(next);
         }
     }
     if (seen.collision) V::failKey("HARNESS:hash-collision", "two different canonical states share a 64-bit hash");
     if (cut) V::S().sh->deadlineHit = 1;
-    for (int d = 0; d <= done; ++d) V::count("shards_done_depth_" + std::to_string(d + 1), 1);
+    (void)done;
     size_t ncore = 0;
     for (size_t o = 0; o < nops; ++o) ncore += sys.core(o);
     V::count("interior_depth", shard == 0 ? D : 0);
     V::count("ops_in_alphabet", shard == 0 ? nops : 0);
     V::count("ops_in_core_alphabet", shard == 0 ? ncore : 0);
-    V::count("states_interior", shard == 0 ? seen.n : 0);
-    V::count("states_leaf", novelLeaf);
-    V::count("transitions_interior", interiorTrans);
-    V::count("transitions_partitioned", partTrans);
-    V::count("transitions_executed_incl_redundant", execs);
-    V::count("disabled_ops_skipped", disabled);
-    V::count("states_observed", observed);
+    progress();
     sys.finish(shard);
     V::outcome(cut ? "bfs:cut-by-deadline" : "bfs:completed");
 }
@@ -277,6 +290,7 @@ void explore(Sys &sys, V::Ctx &ctx, int D)
 template <class Sys>
 void runSharded(Sys &sys, V::Ctx &ctx, int D)
 {
+    if (V::S().skipUpto > 0) V::S().sh->deadlineHit = 1;     // restarted after a crash: the exploration was cut short
     for (int k = 0; k < ctx.nshards; ++k) {
         // begin_case() hands case number k+1 to shard (k+1) % n: each shard runs exactly one BFS
         if (V::begin_case("bfs")) {
